@@ -385,8 +385,8 @@ def gen_runs(ctx, prop):
 
     if not ctx.thorough:
         R("one_full_dev2", MaxItems=1, MaxDev=2, PoolA=full, Feat={"trail", "section", "annot", "block", "target", "comment", "hoist", "c3"}, Knobs=K)
-        R("one_headers", MaxItems=2, MaxDev=1, PoolA=micro, PoolB={"w"}, HeaderMode="all", HeaderMaxBody=2, Feat={"comment", "block", "hoist"},
-          Knobs={"alt", "ind", "final", "endOmit", "envOmit", "blank"})
+        R("one_headers", MaxItems=2, MaxDev=1, PoolA={"w", "l3"}, PoolB={"w"}, HeaderMode="all", HeaderMaxBody=2, Feat={"comment", "block", "hoist"},
+          Knobs={"alt", "ind", "final", "endOmit", "envOmit"})
         R("two_core_dev1", MaxItems=2, MaxDepth=1, MaxDev=1, PoolA=core, PoolB=micro, Feat=feat_all, Knobs=K)
         R("three_struct", MaxItems=3, MaxDepth=2, MaxDev=0, PoolA={"w", "l3"}, PoolB={"int", "z1"}, PoolC={"w", "l3"}, Feat=feat_struct)
         R("three_comments", MaxItems=3, MaxDepth=2, MaxDev=2, PoolA={"w"}, PoolB={"int"}, PoolC={"w"},
@@ -398,15 +398,15 @@ def gen_runs(ctx, prop):
     else:
         # sized to about 1M documents in total (measured state counts in comments); the whole list is held in memory and replayed
         R("one_full_dev3", MaxItems=1, MaxDev=3, PoolA=full, Feat={"trail", "section", "annot", "block", "target", "comment", "hoist", "c3"}, Knobs=K)
-        R("two_headers", MaxItems=2, MaxDepth=1, MaxDev=1, PoolA=mini, PoolB=micro, HeaderMode="all", HeaderMaxBody=2,
-          Feat={"comment", "block", "section", "hoist"}, Knobs=K)
-        R("two_full_dev1", MaxItems=2, MaxDepth=1, MaxDev=1, PoolA=full, PoolB=core, Feat=feat_all, Knobs=K)
+        R("two_headers", MaxItems=2, MaxDepth=1, MaxDev=1, PoolA=micro, PoolB={"w", "l3"}, HeaderMode="all", HeaderMaxBody=2,
+          Feat={"comment", "block", "section", "hoist"}, Knobs={"alt", "final", "endOmit", "envOmit"})
+        R("two_full_dev1", MaxItems=2, MaxDepth=1, MaxDev=1, PoolA=full, PoolB=micro, Feat=feat_all, Knobs=K)
         R("two_core_dev2", MaxItems=2, MaxDepth=1, MaxDev=2, PoolA=core, PoolB=micro, Feat=feat_struct, Knobs=K)
         R("three_mini_dev1", MaxItems=3, MaxDepth=2, MaxDev=1, PoolA=mini, PoolB=mini, PoolC=micro, Feat=feat_struct, Knobs={"alt", "ind", "cind", "blank", "op"})
         R("four_comments", MaxItems=4, MaxDepth=2, MaxDev=1, PoolA={"w"}, PoolB={"int"}, PoolC={"w"},
-          Feat={"block", "section", "comment", "cind"}, Knobs={"blank", "cind", "ind"})
-        R("five_nesting", MaxItems=5, MaxDepth=4, MaxDev=0, PoolA={"w"}, PoolB={"int"}, PoolC={"l3", "z1"},
-          Feat={"block", "section", "comment", "zonechild"})
+          Feat={"block", "section", "comment", "cind"}, Knobs={"blank", "cind"})
+        R("five_nesting", MaxItems=5, MaxDepth=3, MaxDev=0, PoolA={"w"}, PoolB={"int"}, PoolC={"l3"},
+          Feat={"block", "section", "comment"})
     return runs
 
 
